@@ -173,7 +173,7 @@ pub fn run_check(prop: &str, tier: Tier) -> i32 {
     // waiting consumer is served without further requests; C07: every request terminates after
     // bounded work); for the other properties it only makes the run inconclusive
     if let Some(f) = &merged.failure {
-        if f.rule == "never_quiescent" && !["C06", "C07"].contains(&prop) {
+        if f.rule == "never_quiescent" && !["C06", "C07", "C15", "C17"].contains(&prop) {
             let p = write_replay(prop, f);
             infra_problem = Some(format!("a case made the simulated server spin forever (see {}); this is reported by the C06/C07 checks", p.display()));
             merged.failure = None;
